@@ -83,12 +83,32 @@ def run_property(prop, tier="quick", root="/repo", jobs=None, out=print, evidenc
     except AnalysisError as e:
         out(f"ANALYSIS-ERROR: property={prop} {e}")
         bad = True
+    extra = None
+    has_unlisted = False
+    if tier == "thorough" and not bad:
+        from .report import load_known
+        from .selftest import run_variants
+
+        known = load_known()[0].get(prop, {})
+        has_unlisted = any(k not in known for k in rep.findings)
+        if not has_unlisted:
+            vres = run_variants([prop], root=root, jobs=jobs)
+            vbad = [r for r in vres if r["status"] == "FAILED"]
+            extra = {
+                "liveness_variants_run": len([r for r in vres if r["status"] != "skipped"]),
+                "liveness_variants_as_expected": len([r for r in vres if r["status"] == "ok"]),
+                "liveness_variants_skipped": [r["variant"] + ": " + r.get("why", "") for r in vres if r["status"] == "skipped"],
+                "liveness_variants": [{k: r.get(k) for k in ("variant", "expected", "exit", "status", "violations", "wall_s")} for r in vres],
+            }
+            for r in vbad:
+                out(f"ANALYSIS-ERROR: property={prop} liveness variant {r['variant']} not judged as expected (expected {r.get('expected')}, exit {r.get('exit')}, reported {r.get('violations')})")
+                bad = True
     code = finish(
         rep, tier, seed, meta["level"], time.time() - t0,
         {"root": root, "cmd": cmd or f"./vcheck run {prop} --tier {tier}"},
         stats, meta["explanation"], meta["rule"], meta.get("trusted_base", []),
         meta.get("assumptions", []) + [f"{k}: {v}" for k, v in sorted(A.model.flags_assumed.items())][:8],
-        out=out, evidence_dir=evidence_dir, replay_dir=replay_dir,
+        out=out, evidence_dir=evidence_dir, replay_dir=replay_dir, extra=extra,
     )
     if bad:
         return 2
